@@ -89,6 +89,16 @@ pub fn manual(case: &Case, prop: &str) -> Verdict {
                 return Verdict::Fail(Failure::new(&format!("{prop}.manual"), format!("{prop}.manual:{}", case["name"].as_str().unwrap_or("?")), format!("no diagnostic covers offset {at} ({})", e["at"])));
             }
         }
+        if let Some(len) = e["hints_len"].as_u64() {
+            // inlay hints for the range [at, at+len]: every returned hint must lie inside it
+            let hs = a.inlay_hint(crate::ws::frange(ws.root, at, at + len as usize)).unwrap_or_default();
+            for h in hs {
+                let p = u32::from(h.position) as usize;
+                if p < at || p > at + len as usize {
+                    return Verdict::Fail(Failure::new(&format!("{prop}.manual"), format!("{prop}.manual:{}", case["name"].as_str().unwrap_or("?")), format!("hint {:?} at {p} outside the requested range {at}..{}", h.label, at + len as usize)));
+                }
+            }
+        }
         if e["nodiag"].as_bool() == Some(true) {
             let all: Vec<String> = diags.values().flatten().map(|d| d.message.clone()).collect();
             if !all.is_empty() {
